@@ -362,6 +362,21 @@ func kemCase(im *kemImpl, k int) {
 		if err != nil || !lib.Eq(ct2, wantC) || !lib.Eq(ss2, wantK) {
 			kviol(im, "encaps-mismatch", "scheme-api", "seed", seed, "m", m, "err", err)
 		}
+		// the secret written over the seed (one 32-octet buffer serves as input
+		// and as output), and the ciphertext buffer not zero
+		{
+			buf := lib.Clone(m)
+			ctA := make([]byte, p.CtSize)
+			for i := range ctA {
+				ctA[i] = 0xEE
+			}
+			if pn := lib.Try("EncapsulateTo(ss over seed):"+im.name, m, func() { usePk.EncapsulateTo(ctA, buf, buf) }); pn == nil {
+				lib.Count("encaps:secret-over-seed")
+				if !lib.Eq(ctA, wantC) || !lib.Eq(buf, wantK) {
+					kviol(im, "encaps-mismatch", "secret-written-over-the-seed-buffer", "seed", seed, "m", m, "ct_same", lib.Eq(ctA, wantC), "ss_same", lib.Eq(buf, wantK))
+				}
+			}
+		}
 
 		// honest decapsulation through every entry point
 		for which, s := range []kemPriv{sk, dsk} {
